@@ -51,6 +51,23 @@ namespace
 
 thread_local bool tlsHarness = false; // true on every thread the harness created (and main)
 
+} // namespace
+// schedule perturbation (harness/c05_sched.cpp): linked into the ASan unit only
+extern "C" void c05_sched_set(unsigned long seed, unsigned level) __attribute__((weak));
+namespace
+{
+struct SchedScope
+{
+  SchedScope(unsigned long seed, unsigned level)
+  {
+    if (c05_sched_set) c05_sched_set(seed, level);
+  }
+  ~SchedScope()
+  {
+    if (c05_sched_set) c05_sched_set(0, 0);
+  }
+};
+
 template <class F> std::thread spawn(F f)
 {
   return std::thread(
@@ -148,6 +165,8 @@ struct Plan
   int cbDelayUs{0};   // sleep inside I/O-thread callbacks
   int holdFlushMs{0}; // sleep inside the onData callback when it runs on a flushing application thread
   int connectTimeoutMs{30000}; // engine-side connect timer (a pending timer <= 5 s delays ~TimerService by design)
+  int schedLevel{0};           // ASan unit: probability (n/64) of a yield/usleep before each mutex lock
+  unsigned long schedSeed{1};
   std::vector<CyclePlan> cycles;
 };
 
@@ -155,7 +174,7 @@ std::string describe(const Plan &p)
 {
   std::string s = p.udp ? "udp" : "tcp";
   s += pbt::Fmt() << " edge=" << p.edge << " hiRes=" << p.hiRes << " batch=" << p.batching << " cbDelayUs=" << p.cbDelayUs
-                  << " holdFlushMs=" << p.holdFlushMs << " connTmo=" << p.connectTimeoutMs;
+                  << " holdFlushMs=" << p.holdFlushMs << " connTmo=" << p.connectTimeoutMs << " sched=" << p.schedLevel << "/" << p.schedSeed;
   int ci = 0;
   for (auto &cy : p.cycles)
   {
@@ -364,6 +383,8 @@ void runPlan(const Plan &plan, pbt::Case &c)
   tlsHarness = true;
   c.describe(describe(plan));
   pbt::watchdog(kBoundSec + 15, "C05/stranded-call");
+  SchedScope sched(plan.schedSeed, static_cast<unsigned>(plan.schedLevel));
+  if (c05_sched_set && plan.schedLevel) c.label("schedule perturbation on");
 
   auto ctxOwner = std::make_unique<Ctx>();
   Ctx *ctx = ctxOwner.get();
@@ -1026,6 +1047,8 @@ Plan genPlan(pbt::Src &src, bool udp)
   p.cbDelayUs = src.oneOf<int>({0, 0, 30, 200});
   p.holdFlushMs = src.oneOf<int>({0, 0, 2, 15});
   p.connectTimeoutMs = src.oneOf<int>({150, 30000, 30000});
+  p.schedLevel = src.oneOf<int>({0, 2, 5, 10});
+  p.schedSeed = static_cast<unsigned long>(src.range(1, 1000000));
   int cycles = static_cast<int>(src.weighted({5, 3, 2})) + 1;
   for (int ci = 0; ci < cycles; ++ci)
   {
